@@ -31,7 +31,7 @@ def check(m, run):
     run.floor('AL1.no-shared-cells', 3, 'deep copies out of the work array of A5.1')
     # the admissibility test relies on the multiplicity count: every knot within the tolerance of the parameter is counted
     from . import c03 as _c03
-    _c03.tol2(m, run)
+    _c03.multiplicity_rules(m, run)
     from .. import skel_drivers as _sdk
     _sdk.kd5(m, run)       # the per-row helpers dispatch on isinstance(point[0], float): the setters store floats
 
